@@ -30,6 +30,7 @@ def delete_model(tag='delete'):
 # ------------------------------------------------------------------ delete_snapshots
 def delete_setup(b):
     me = shared.repo_self(b)
+    b.me = me
     L = Loaded()
     b.L = L
     snaps = b.ref('snapshots', sym.ListC(STR))
@@ -220,6 +221,9 @@ def make_delete_post(prop):
             for e in [x for x in evs if x['kind'] == 'delete_cached']:
                 res.oblige(p.st.pc + list(e['cond']), f'{prop}.delete.evicts_same_location[{sig}]',
                            z3.BoolVal(e['label'] == '_delete_snapshot'), tag='helper')
+                # precondition of the cache primitives (they only `assert` it): never called without a cache directory
+                cd = b.me.get('_cache_directory')
+                res.oblige(p.st.pc + list(e['cond']), f'{prop}.delete.cache_touched_only_with_a_cache_directory[{sig}]', z3.Not(cd.ty.is_none(cd.z)))
         # raising paths: ReplicatError before any deletion when something requested is missing/foreign
         for p in res.raises('ReplicatError'):
             res.oblige(p, f'{prop}.delete.refusal_precedes_deletes', z3.BoolVal(not delete_events(p)))
